@@ -58,16 +58,17 @@ pub fn targeted(rng: &mut Rng) -> String {
     let post = *rng.pick(&["", "\n", "  \nd", "\n\nz", "\r\n"]);
     // code spans that cross a line whose tab is split by a container indent (virtual spaces inside code content)
     if rng.chance(1, 8) {
-        let open = *rng.pick(&["- `", "> `", "1. `x", "- ``", "- a `b", ">  - `", "- `  "]);
+        let open = *rng.pick(&["- `", "> `", "1. `x", "- ``", "- a `b", ">  - `", "- `  ", "-    ` a", "-   ` ", "-  `` a", "10. ` x", ">   ` a"]);
         let cont = *rng.pick(&["\n\t", "\n\t\t", "\n \t", "\n>\t", "\n  \t", "\r\n\t"]);
-        let close = *rng.pick(&[" `", "`", " ``", "\n\t`", " ` z"]);
-        return format!("{open}{cont}{}{close}", doc::inline_text(rng, 0, 2).replace('`', "'"));
+        let close = *rng.pick(&[" `", "`", " ``", "\n\t`", " ` z", "`\u{e9}"]);
+        let mid = if rng.chance(1, 3) { String::new() } else { doc::inline_text(rng, 0, 2).replace('`', "'") };
+        return format!("{open}{cont}{mid}{close}");
     }
     format!("{pre}{inl}{post}")
 }
 
 pub fn run(n: usize, rng: &mut Rng, rep: &mut Report) {
-    let corpus = ["a\n\n*b*", "a\n\n*b* c  \nd", "> ```\nfoo\n```", "- a\n\n \tb", "- `\n\ta `", "- )) `\n\t\u{e9} `"];
+    let corpus = ["a\n\n*b*", "a\n\n*b* c  \nd", "> ```\nfoo\n```", "- a\n\n \tb", "- `\n\ta `", "- )) `\n\t\u{e9} `", "-    ` a\n\t\t`", "-    ` a\n\t\t`\u{e9}"];
     let mut cases: Vec<(cfg::Cfg, String)> = corpus.iter().map(|s| (cfg::Cfg::stock(), s.to_string())).collect();
     for _ in 0..n {
         let c = if rng.chance(2, 3) { let mut c = cfg::Cfg::stock(); if rng.chance(1, 3) { c.mask |= 1 << cfg::STRIKE; } c } else { cfg::sample(rng, true, true) };
